@@ -332,8 +332,29 @@ func c19AccRun(out *c19Out, raw []byte) {
 			out.Class("observation/result-depends-on-earlier-EventID-call/" + c19Accessors[idx].Name)
 		}
 	}
-	// read-only accessors leave nothing behind for OTHER events: a power-levels event that does not
-	// mention notifications still reports the default afterwards
+	// read-only accessors leave nothing behind for OTHER events: after the accessors of a join ran
+	// (in several goroutines), a member event whose content names no membership still reports none
+	if c.Kind == "member" {
+		for _, content := range []string{`{}`, `{"membership":null}`, `{"displayname":"c19"}`} {
+			js, jerr := sjson.SetRawBytes(evJSON, "content", []byte(content))
+			if jerr != nil {
+				continue
+			}
+			oe, oerr := ver.NewEventFromTrustedJSON(js, false)
+			if oerr != nil {
+				continue
+			}
+			m, merr := "", error(nil)
+			for try := 0; try < 8 && m == ""; try++ {
+				_, _ = shared.Membership() // (the join, on this goroutine, immediately before)
+				m, merr = oe.Membership()
+			}
+			if merr == nil && m != "" {
+				out.Fail("C19/accessors/membership-of-another-event", "after Membership() of a join ran, a member event with content %s reports membership %q", content, m)
+			}
+		}
+	}
+	// ... a power-levels event that does not mention notifications still reports the default afterwards
 	if c.Kind == "power-full" {
 		plain := c
 		plain.Kind = "power"
